@@ -872,6 +872,14 @@ void LLVMVisitor::bvisit(const Max &x)
 
 void LLVMVisitor::bvisit(const Symbol &x)
 {
+    // CSE symbols first: cse() only avoids the symbols of the output
+    // expressions, so one of its symbols can have the name of an input
+    // symbol that the outputs do not use.
+    auto it = replacement_symbol_ptrs.find(x.rcp_from_this());
+    if (it != replacement_symbol_ptrs.end()) {
+        result_ = it->second;
+        return;
+    }
     unsigned i = 0;
     for (auto &symb : symbols) {
         if (eq(x, *symb)) {
@@ -879,11 +887,6 @@ void LLVMVisitor::bvisit(const Symbol &x)
             return;
         }
         ++i;
-    }
-    auto it = replacement_symbol_ptrs.find(x.rcp_from_this());
-    if (it != replacement_symbol_ptrs.end()) {
-        result_ = it->second;
-        return;
     }
 
     throw SymEngineException("Symbol " + x.__str__()
